@@ -181,7 +181,7 @@ PROPS = {
     },
     "C02": {
         "module": "ZenonVerif.Props.C02",
-        "streams": [S("sync", 12, 200, timeout=7200)],
+        "streams": [S("sync", 12, 200, timeout=7200), S("sync-batches", 300, 6000, timeout=3000)],
         "rule": "sync stream: one evaluation = one line: a momentum's redo patch replayed into the Lean manager model, or the "
                 "frontier digest of one follower under one delivery schedule (one-by-one / random batches up to 40 / account "
                 "blocks gossiped 0..3 momentums ahead / restarts on the same directory / batches up to 120 with overlaps); per "
@@ -192,7 +192,11 @@ PROPS = {
                 "follower itself) for accounts whose next block the batch confirms; every sixth history is the deep scenario: > 360 "
                 "momentums, views at 19 heights (near/far cache boundary ±1) materialised on a follower, blocks pooled on the producer's "
                 "head, the head replaced by a two-momentum branch through InsertChain, then every view compared warm / after restart / "
-                "on a cold node that only saw the final chain",
+                "on a cold node that only saw the final chain; sync-batches stream (shared with C06/C16): followers that went through "
+                "refused batches, rollbacks and chain switches (also across an election tick and an EPOCH end — the stream runs on "
+                "epochs of ten minutes and the switching branch leaves a slot empty) compared with a fresh node that only received their "
+                "final chain: ledger state byte for byte, historical views, pool, list queries, consensus statistics of both epochs, "
+                "pillar weights, delegations, elected producer of every slot",
         "partial": "that the Go VM is a function of exactly the inputs the model names is established by the multi-node "
                    "correspondence and the nondeterminism-site fact, not by a theorem; map-iteration order inside methods is only sampled",
         "assumptions": ["SHA3 collision freedom (ChangesHash pins the patch)"],
